@@ -453,6 +453,9 @@ func (db *SingleBucketBackend) deleteObjectLocked(bucketName, objectName string)
 	if err := db.fs.Remove(filepath.FromSlash(objectName)); err != nil && !os.IsNotExist(err) {
 		return err
 	}
+	if err := pruneEmptyDirs(db.fs, ".", objectName); err != nil {
+		return err
+	}
 	if err := db.metaStore.deleteMeta(db.metaStore.metaPath(bucketName, objectName)); err != nil {
 		return err
 	}
